@@ -69,7 +69,7 @@ def shard(i, n, args):
         import itertools
 
         cases = itertools.chain(
-            all_cases(mm, root, seed, tier, n_random=(2 if tier == "quick" else 40)),
+            all_cases(mm, root, seed, tier, n_random=(16 if tier == "quick" else 250)),
             ((lab, tr, None, None) for lab, tr in toggle_cases(mm, root, seed, 1 if tier == "quick" else 3)),
         )
         for lab, tree, site, alt in cases:
@@ -117,7 +117,7 @@ def shard(i, n, args):
 
 def main(tier):
     rep = common.Report("C02", tier)
-    nsh = 4 if tier == "quick" else common.NCPU
+    nsh = min(8, common.NCPU) if tier == "quick" else common.NCPU
     if ctx.focus() is not None:
         nsh = 2
     results, inconc = common.run_shards("c02", nsh, args=[tier])
